@@ -438,7 +438,7 @@ def run(model, col, tier):
                   "uses of the load are rewired to the stored value", f"uses are rewired with {[rtext(x, h_env) for x in a]}", LAS, cs[0])
     col.floor("R02.7", "forwarding paths", nfw, 1)
     prev = find_assign(h, pv)
-    col.check(bool(prev) and rtext(prev[0], h_env) == f"{ld}.Parent.GetPreviousInstruction({ld})", "R02.7", f"{LAS}::previous instruction source", "previous = the load's block .GetPreviousInstruction(load)", f"{[unparse(p) for p in prev]}", LAS, h)
+    col.check(bool(prev) and all(rtext(p_, h_env) == f"{ld}.Parent.GetPreviousInstruction({ld})" for p_ in prev), "R02.7", f"{LAS}::previous instruction source", "previous = the load's block .GetPreviousInstruction(load)", f"{[unparse(p) for p in prev]}", LAS, h)
     gp = bb.own_method("GetPreviousInstruction")
     col.check(_previous_ok(bb, gp), "R02.7", f"{IR}::BasicBlock.GetPreviousInstruction",
               "the directly preceding instruction of the same block (index - 1), None for the first", "GetPreviousInstruction does not return the directly preceding instruction of the same block", IR, gp)
